@@ -29,6 +29,7 @@ def run(ctx):
     _shared_r5(ctx)
     _round6(ctx)
     _round7(ctx)
+    _round8(ctx)
 
 
 def _run_main(ctx):
@@ -106,3 +107,10 @@ def _round7(ctx):
     from rules import arms as A
     with ctx.rule('R20.10', "Connection::close racing a server close still closes: the client's Close is appended and the buffer sealed in one step (shared with C08)", floor=2) as r:
         A.include(ctx, r, 'c08', 'R08.1', pick=('client-close',))
+
+
+def _round8(ctx):
+    """Rules that are necessary conditions of this property too (found by seeding round 8)."""
+    from rules import arms as A
+    with ctx.rule('R20.11', 'a server close met by client requests is answered before the loop ends: a closing state is done only when the sealed buffer is flushed (shared with C08)', floor=4) as r:
+        A.include(ctx, r, 'c08', 'R08.5', pick=('done:',))
